@@ -84,6 +84,7 @@ type server struct {
 	// sessionAfterConfig: a further new_session_created follows the config result
 	// at once (servers may announce a session at any time, e.g. after a reset)
 	sessionAfterConfig bool
+	update             []byte // an encoded updateShort
 }
 
 func (s *server) dial(ctx context.Context, network, addr string) (net.Conn, error) {
@@ -171,6 +172,22 @@ func (s *server) dial(ctx context.Context, network, addr string) (net.Conn, erro
 		case "ack-then-kill":
 			ack()
 			_ = p.Conn.Close()
+		case "ack-behind-update-then-kill":
+			// the acknowledgement travels in a container behind an update; the
+			// client's update handler is slow, so the ack has been received but not
+			// yet looked at when the connection goes away
+			s.mu.Lock()
+			s.acked[tag]++
+			if s.ackedOn[tag] == nil {
+				s.ackedOn[tag] = map[int]bool{}
+			}
+			s.ackedOn[tag][idx] = true
+			s.mu.Unlock()
+			_ = p.Send(p.NextID(1), 0, pbt.Container(
+				pbt.ContainerMsg{MsgID: p.NextID(1), SeqNo: 1, Body: s.update},
+				pbt.ContainerMsg{MsgID: p.NextID(1), SeqNo: 2, Body: pbt.MsgsAck(m.MsgID)},
+			))
+			_ = p.Conn.Close()
 		case "result-then-kill":
 			ack()
 			answer()
@@ -211,12 +228,16 @@ func TestC29(t *testing.T) {
 	if err := cfg.Encode(&cfgBuf); err != nil {
 		t.Fatal(err)
 	}
+	updBuf := bin.Buffer{}
+	if err := (&tg.UpdateShort{Update: &tg.UpdateUserTyping{UserID: 5, Action: &tg.SendMessageTypingAction{}}, Date: 1}).Encode(&updBuf); err != nil {
+		t.Fatal(err)
+	}
 	rapid.Check(t, func(t *rapid.T) {
 		rnd, seed := pbt.DrawStream(t, "rnd")
 		ncalls := rapid.IntRange(1, 3).Draw(t, "ncalls")
 		plans := make([]string, ncalls)
 		for i := range plans {
-			plans[i] = rapid.SampledFrom([]string{"answer", "kill-before-ack", "kill-before-ack", "ack-then-kill", "ack-then-kill", "result-then-kill", "hold", "hold-unacked"}).Draw(t, "plan")
+			plans[i] = rapid.SampledFrom([]string{"answer", "kill-before-ack", "kill-before-ack", "ack-then-kill", "ack-then-kill", "ack-behind-update-then-kill", "result-then-kill", "hold", "hold-unacked"}).Draw(t, "plan")
 		}
 		idleKill := rapid.Bool().Draw(t, "killWhileIdleFirst") // "before send": the connection is dead when the request is issued
 		undetected := rapid.Bool().Draw(t, "deathNotYetDetected")
@@ -246,7 +267,7 @@ func TestC29(t *testing.T) {
 			var key [256]byte
 			copy(key[:], rnd.Bytes(256))
 			srv := &server{key: key, t0: time.Now(), plan: map[uint64]string{}, handled: map[uint64]bool{}, seenTag: map[uint64][]seen{},
-				acked: map[uint64]int{}, ackedOn: map[uint64]map[int]bool{}, answered: map[uint64]int{}, cfg: cfgBuf.Buf}
+				acked: map[uint64]int{}, ackedOn: map[uint64]map[int]bool{}, answered: map[uint64]int{}, cfg: cfgBuf.Buf, update: updBuf.Buf}
 			ak := keyFrom(0)
 			ak.Value = key
 			ak.ID = ak.Value.ID()
@@ -261,6 +282,11 @@ func TestC29(t *testing.T) {
 				SessionStorage: store,
 				NoUpdates:      true,
 				Random:         rnd,
+				// the application's update handler takes its time (virtual)
+				UpdateHandler: telegram.UpdateHandlerFunc(func(ctx context.Context, u tg.UpdatesClass) error {
+					time.Sleep(2 * time.Second)
+					return nil
+				}),
 			})
 			ctx, cancel := context.WithCancel(context.Background())
 			runDone := make(chan error, 1)
@@ -433,8 +459,11 @@ func TestC29(t *testing.T) {
 					if !returned || err != nil || !bytes.Equal(c.out, resultFor(c.tag)) {
 						t.Fatalf("C29 violated: request %d was re-sent after an unacknowledged loss but Invoke returned (returned=%v) err=%v\n%s", c.tag, returned, err, strings.Join(hist, " "))
 					}
-				case "ack-then-kill":
+				case "ack-then-kill", "ack-behind-update-then-kill":
 					classes["killed-after-ack"] = true
+					if plan == "ack-behind-update-then-kill" {
+						classes["ack-received-but-not-yet-handled-at-kill"] = true
+					}
 					if !returned {
 						t.Fatalf("C29 violated: request %d was acknowledged, then the connection died: Invoke never returned\n%s", c.tag, strings.Join(hist, " "))
 					}
@@ -454,7 +483,7 @@ func TestC29(t *testing.T) {
 		})
 		key := fmt.Sprintf("seed=%d %s", seed, strings.Join(hist, " "))
 		var cl []string
-		for _, k := range []string{"kill-before-send", "killed-after-send-before-ack", "killed-after-ack", "killed-after-result", "client-closed", "issued-during-outage-then-close"} {
+		for _, k := range []string{"kill-before-send", "killed-after-send-before-ack", "killed-after-ack", "killed-after-result", "client-closed", "issued-during-outage-then-close", "ack-received-but-not-yet-handled-at-kill"} {
 			if classes[k] {
 				cl = append(cl, k)
 			}
